@@ -367,9 +367,20 @@ func (state *RuntimeState) u2fSignResponse(w http.ResponseWriter, r *http.Reques
 			u2fReg.Counter = newCounter
 			profile.U2fAuthData[i] = u2fReg
 			//profile.U2fAuthChallenge = nil
+			// The challenge is one-time: consume it only if it is still
+			// the pending one (a concurrent request may have used it).
 			state.Mutex.Lock()
-			delete(state.localAuthData, authData.Username)
+			pendingAuth, stillPending := state.localAuthData[authData.Username]
+			stillPending = stillPending &&
+				pendingAuth.U2fAuthChallenge == localAuth.U2fAuthChallenge
+			if stillPending {
+				delete(state.localAuthData, authData.Username)
+			}
 			state.Mutex.Unlock()
+			if !stillPending {
+				http.Error(w, "challenge missing", http.StatusBadRequest)
+				return
+			}
 
 			eventNotifier.PublishAuthEvent(eventmon.AuthTypeU2F, authData.Username)
 			_, isXHR := r.Header["X-Requested-With"]
